@@ -137,7 +137,7 @@ class Contract:
             if label in self.assumed_requires:
                 continue
             interp.ctx.oblige(f"{_caller(interp)}::pre-of-callee::{fi.qualname}.{label}", fn(o), kind="pre-of-callee",
-                              line=getattr(node, "lineno", None), props=self.props)
+                              line=getattr(node, "lineno", None), props=_pre_props(self, interp))
 
     def apply_at_call(self, interp: Interp, fi, args, kwargs, node):
         ctx = interp.ctx
@@ -163,7 +163,7 @@ class Contract:
             for label, fn in self.requires:
                 if vc is None or vc.check_callee_pre:
                     ctx.oblige(f"{_caller(interp)}::pre-of-callee::{fi.qualname}.{label}", fn(o), kind="pre-of-callee",
-                               line=line, props=self.props)
+                               line=line, props=_pre_props(self, interp))
                 ctx.assume(fn(o))
         old, _ = clone_graph(roots)
         oldr = Roots(old)
@@ -223,6 +223,18 @@ class Contract:
             ctx.assume(f)
             interp.stats["assumed"].add((self.key, c.label))
         return result
+
+
+def _pre_props(callee_contract, interp):
+    """a callee precondition is an obligation of the CALLER's body: it counts for the properties of the contract being verified as
+    well as for those the callee's contract serves (after it, the precondition is assumed, so a violated one is the only obligation
+    of that path that reports)"""
+    vc = interp.verifying_contract
+    ps = list(callee_contract.props)
+    for p in (vc.all_props() if vc is not None else ()):
+        if p not in ps:
+            ps.append(p)
+    return tuple(ps)
 
 
 def _caller(interp):
